@@ -294,31 +294,38 @@ def r11_r12_connect(repo, sink):
 
 
 def r14_doublepush(repo, sink):
+    """Initial data goes out once for the composition start and, when the producer starts later, once more (as a copy) for the
+    producer's own start; a static output gets it once with time None; nothing is published again by later connect calls.
+    Observed on the public connect() of the helper."""
     c = repo.cls("ConnectHelper")
-    f = repo.resolve(c, "_push_data", "method")
+    f = repo.resolve(c, "connect", "method")
     start, later = Sym("t0"), Sym("t1")
     for name, static, itime, want in (
-        ("static", True, start, [("DATA", None)]),
+        ("static", True, None, [("DATA", None)]),
         ("same-start", False, start, [("DATA", start)]),
         ("later-start", False, later, [("DATA", start), ("COPY", later)]),
     ):
         it = _CH(repo)
         it.order.name(start, "t0", 0)
         it.order.name(later, "t1", 1)
-        me, _i, outs = _build(repo, it, {}, {"O": (True, True, static, itime, {})}, [], start)
-        me.fields["_out_data_cache"]["O"] = Sym("payload", "O")
+        me, _i, outs = _build(repo, it, {}, {"O": (True, True, static, itime, {"info": [OK]})}, [], start)
         it.log = []
         try:
-            it.run(f, ["O", Sym("payload", "O"), start, itime], self_obj=me)
+            st1 = it.run(f, [start], {"push_data": {"O": Sym("payload", "O")}}, self_obj=me)
+            n1 = len(it.log)
+            it.run(f, [start], {}, self_obj=me)
         except Raised as r:
             sink.bad("R14", f"initial-push:{name}", f, f"raises {r.name}")
             continue
-        got = [(("COPY" if isinstance(a[0], Sym) and a[0].op == "copy" else "DATA" if a[0] == Sym("payload", "O") else repr(a[0])), a[1])
-               for (_l, op, a) in it.log if op == "push_data"]
-        ok = got == want and me.fields["_pushed_data"]["O"] is True and "O" not in me.fields["_out_data_cache"]
+        pushes = [(("COPY" if isinstance(a[0], Sym) and a[0].op == "copy" else "DATA" if a[0] == Sym("payload", "O") else repr(a[0])), a[1])
+                  for (_l, op, a) in it.log if op == "push_data"]
+        first = [(("COPY" if isinstance(a[0], Sym) and a[0].op == "copy" else "DATA" if a[0] == Sym("payload", "O") else repr(a[0])), a[1])
+                 for (_l, op, a) in it.log[:n1] if op == "push_data"]
+        pushed_flag = _state(me, repo)["data_pushed"].get("O")
+        ok = first == want and pushes == want and pushed_flag is True
         sink.check(ok, "R14", f"initial-push:{name}", f,
-                   ok=f"initial data published as {want}",
-                   bad=f"initial data published as {got} (pushed flag {me.fields['_pushed_data']['O']}), expected {want}: "
+                   ok=f"initial data published as {want}, not again by a later call",
+                   bad=f"initial data published as {first} in the first call and {pushes} over two calls (pushed flag {pushed_flag}), expected {want} once: "
                        "composition start and producer start must both be published, the second from a fresh copy")
 
 
